@@ -9,10 +9,16 @@ id takes away occurrences of that id only (`goRemove_count_other`).  Generated f
 namespace Bxh.Exec
 open Bxh
 
+/-- a timeout list as the code writes it: the emptied list `[none]` ("" split at commas), or a list without empty elements -/
+def WFL (lst : List (Option TId)) : Prop := lst = [none] ∨ ∀ x ∈ lst, x ≠ none
+
+def WFV (v : Option Val) : Prop := ∀ lst, v = some (.tlist lst) → WFL lst
+
 inductive StepsE : Led → Led → Prop
   | refl (l : Led) : StepsE l l
   | setO {l l' : Led} (k : Key) (v : Option Val) (hk : ∀ d, k ≠ .timeout d) : StepsE l l' → StepsE l (l'.setS k v)
-  | setT {l l' : Led} (d : Nat) (lst : List (Option TId)) (hcnt : ∀ t, lst.count (some (TId.single t)) = listCount l' d t) :
+  | setT {l l' : Led} (d : Nat) (lst : List (Option TId)) (hcnt : ∀ t, lst.count (some (TId.single t)) = listCount l' d t)
+      (hwf : WFV (l'.getS (.timeout d)) → WFL lst) :
       StepsE l l' → StepsE l (l'.setS (.timeout d) (some (.tlist lst)))
   | post {l l' : Led} (e : Ev) : StepsE l l' → StepsE l (l'.post e)
 
@@ -20,7 +26,7 @@ theorem StepsE.trans {a b c : Led} (h1 : StepsE a b) (h2 : StepsE b c) : StepsE 
   induction h2 with
   | refl => exact h1
   | setO k v hk _ ih => exact StepsE.setO k v hk ih
-  | setT d lst hcnt _ ih => exact StepsE.setT d lst hcnt ih
+  | setT d lst hcnt hwf _ ih => exact StepsE.setT d lst hcnt hwf ih
   | post e _ ih => exact StepsE.post e ih
 
 theorem StepsE.addO {l l' : Led} (k : Key) (v : Val) (hk : ∀ d, k ≠ .timeout d) (h : StepsE l l') : StepsE l (l'.addS k v) :=
@@ -35,13 +41,31 @@ theorem StepsE.count {l l' : Led} (h : StepsE l l') (d : Nat) (t : TxId) : listC
   | setO k v hk _ ih =>
     refine Eq.trans (listCount_congr ?_) ih
     simp only [Led.getS_setS]; rw [if_neg (hk d)]
-  | @setT l1 d' lst hcnt _ ih =>
+  | @setT l1 d' lst hcnt _ _ ih =>
     by_cases hd : d' = d
     · subst hd
       rw [listCount_of (l := Led.setS l1 (.timeout d') (some (.tlist lst))) (lst := lst) (by simp)]
       rw [hcnt t]; exact ih
     · refine Eq.trans (listCount_congr ?_) ih
       simp only [Led.getS_setS]; rw [if_neg (fun e => hd (by cases e; rfl))]
+  | post e _ ih => exact ih
+
+/-- **such steps keep every timeout list well-formed** -/
+theorem StepsE.wf {l l' : Led} (h : StepsE l l') (h0 : ∀ d, WFV (l.getS (.timeout d))) : ∀ d, WFV (l'.getS (.timeout d)) := by
+  induction h with
+  | refl => exact h0
+  | setO k v hk _ ih =>
+    intro d
+    simp only [Led.getS_setS]; rw [if_neg (hk d)]; exact ih d
+  | @setT l1 d' lst _ hwf _ ih =>
+    intro d
+    by_cases hd : d' = d
+    · subst hd
+      simp only [Led.getS_setS, if_true]
+      intro lst' e
+      cases e
+      exact hwf (ih d')
+    · simp only [Led.getS_setS]; rw [if_neg (fun e => hd (by cases e; rfl))]; exact ih d
   | post e _ ih => exact ih
 
 syntax "stepsE_tac" : tactic
@@ -62,6 +86,12 @@ theorem count_normList_single (r : List (Option TId)) (t : TxId) :
     subst this; simp
   · rfl
 
+theorem normList_wf (r : List (Option TId)) (h : ∀ x ∈ r, x ≠ none) : WFL (normList r) := by
+  unfold normList
+  split
+  · exact Or.inl rfl
+  · exact Or.inr h
+
 theorem tmAddTimeout_stepsE (l : Led) (h : Nat) (g : GId) : StepsE l (tmAddTimeout l h (.global g)) := by
   have one : ∀ t : TxId, [some (TId.global g)].count (some (TId.single t)) = 0 := by
     intro t; rw [List.count_eq_zero]; intro hm; simp at hm
@@ -70,16 +100,25 @@ theorem tmAddTimeout_stepsE (l : Led) (h : Nat) (g : GId) : StepsE l (tmAddTimeo
   · rename_i lst hl
     split
     · rename_i hn
-      refine StepsE.setT _ _ ?_ (StepsE.refl _)
+      refine StepsE.setT _ _ ?_ (fun _ => Or.inr (by intro x hx; simp at hx; subst hx; simp)) (StepsE.refl _)
       intro t
       rw [one, listCount_of hl]
       have : lst = [none] := by simpa using hn
       subst this; simp
-    · refine StepsE.setT _ _ ?_ (StepsE.refl _)
-      intro t
-      rw [count_single_global, listCount_of hl]
+    · rename_i hn
+      refine StepsE.setT _ _ ?_ ?_ (StepsE.refl _)
+      · intro t
+        rw [count_single_global, listCount_of hl]
+      · intro hw
+        right
+        rcases hw lst hl with h1 | h1
+        · exact absurd (by rw [h1]; rfl) hn
+        · intro x hx
+          rcases List.mem_append.mp hx with h2 | h2
+          · exact h1 x h2
+          · simp at h2; subst h2; simp
   · rename_i hno
-    refine StepsE.setT _ _ ?_ (StepsE.refl _)
+    refine StepsE.setT _ _ ?_ (fun _ => Or.inr (by intro x hx; simp at hx; subst hx; simp)) (StepsE.refl _)
     intro t
     rw [one]
     unfold listCount
@@ -93,13 +132,19 @@ theorem tmRemoveTimeout_stepsE {l l' : Led} {h : Nat} {g : GId} (e : tmRemoveTim
   · rename_i lst hl
     split at e
     · cases e; exact StepsE.refl _
-    · split at e
+    · rename_i hne
+      split at e
       · rename_i r hr
         cases e
-        refine StepsE.setT _ _ ?_ (StepsE.refl _)
-        intro t
-        rw [listCount_of hl, count_normList_single]
-        exact goRemove_count_other lst r (.global g) hr _ (by intro e; cases e)
+        refine StepsE.setT _ _ ?_ ?_ (StepsE.refl _)
+        · intro t
+          rw [listCount_of hl, count_normList_single]
+          exact goRemove_count_other lst r (.global g) hr _ (by intro e; cases e)
+        · intro hw
+          exact normList_wf r (fun x hx => by
+            rcases hw lst hl with h1 | h1
+            · exact absurd (by rw [h1]; rfl) hne
+            · exact h1 x (goRemove_mem lst r _ hr x hx))
       · cases e
   · cases e; exact StepsE.refl _
 
